@@ -215,6 +215,13 @@ def sampling(tier, rng, rep):
             isos.append(("tangent_origin_to", rep.attempt("tv_origin_to_runs", inp, lambda: tv.origin_to())))
             tv2 = q.unit_tangent_towards(p)
             isos.append(("isometry_to", rep.attempt("isometry_to_runs", inp, lambda: tv.isometry_to(tv2))))
+        # homogeneous data of any scale: a point given by a tiny / huge / negative representative, a short tangent vector
+        sc_ = rng.choice([-1.0, 1.0]) * 10.0 ** rng.uniform(-6, 3)
+        kx = kl()
+        isos.append(("origin_to_scaled_representative", rep.attempt("origin_to_runs", {**inp, "scale": sc_}, lambda: h.Point(sc_ * spec.k2proj(kx)).origin_to())))
+        vshort = rng.normal(size=n + 1) * 10.0 ** rng.uniform(-7, 1)
+        isos.append(("tangent_origin_to_short_vector", rep.attempt("tv_origin_to_runs", {**inp, "vector": vshort.tolist()},
+                                                                  lambda: h.TangentVector(h.Point(spec.k2proj(kx)), vshort.copy()).origin_to())))
         isos.append(("rotation", h.Isometry.standard_rotation(rng.uniform(-3, 3), dimension=n)))
         isos.append(("loxodromic", h.Isometry.standard_loxodromic(n, rng.uniform(0.3, 3))))
         nv = np.concatenate([[rng.uniform(-0.5, 0.5)], (lambda u: u / np.linalg.norm(u) * rng.uniform(1, 2))(rng.normal(size=n))])
@@ -254,30 +261,35 @@ def sampling(tier, rng, rep):
                     isos.append((f"coxeter{pqr}{g}", rp[g]))
         isos = [(nm, i) for nm, i in isos if i is not None]
         # words
-        mats = [i.proj_data for _, i in isos]
+        # words in the constructed isometries (not in earlier words: their factors can be huge while the product is small).
+        # float64: the error of a computed product is ~ eps * L * prod |M_i|, whatever the size of the result; `cond` records it
+        nbase = len(isos)
+        cond = {id(i): 1.0 for _, i in isos}
         for L in range(2, 7):
-            idx = rng.integers(0, len(isos), size=L)
+            idx = rng.integers(0, nbase, size=L)
             W = isos[idx[0]][1]
             for k in idx[1:]:
                 W = W @ (isos[k][1] if rng.random() < 0.5 else isos[k][1].inv())
+            cond[id(W)] = L * float(np.prod([max(1.0, np.max(np.abs(isos[k][1].proj_data)) * (n + 1)) for k in idx]))
             isos.append((f"word{L}", W))
         pts = np.stack([kl() for _ in range(3)] + [(lambda v: v / np.linalg.norm(v))(rng.normal(size=n))] + [(lambda v: v / np.linalg.norm(v) * 1.7)(rng.normal(size=n))])
         X = np.concatenate([np.ones((5, 1)), pts], axis=1)
         for nm, iso in isos:
             M = iso.proj_data
-            if not np.all(np.abs(M @ J @ M.T - J) <= 1e-7 * max(1.0, np.max(np.abs(M)) ** 2)):
+            cn = 1e-14 * cond.get(id(iso), 1.0) * max(1.0, np.max(np.abs(M)))
+            if not np.all(np.abs(M @ J @ M.T - J) <= 1e-7 * max(1.0, np.max(np.abs(M)) ** 2) + cn):
                 rep.fail("preserves_form", f"{nm}: |M J M^T - J| = {np.max(np.abs(M @ J @ M.T - J)):.2e}", {"n": n, "which": nm, "matrix": M.tolist()})
             Y = X @ M
             q0, q1 = np.einsum('ij,jk,ik->i', X, J, X), np.einsum('ij,jk,ik->i', Y, J, Y)
             # q(xM) = q(x) exactly for an isometry; in float64 the error scales with |M|^2 |x|^2 (words of loxodromics
             # have large entries), so interior / ideal / exterior is compared through q up to that error
-            tolq = 1e-7 * max(1.0, np.max(np.abs(M)) ** 2) * np.sum(X * X, axis=-1)
+            tolq = (1e-7 * max(1.0, np.max(np.abs(M)) ** 2) + cn) * np.sum(X * X, axis=-1)
             if np.any(np.abs(q1 - q0) > tolq):
                 rep.fail("keeps_interior_ideal_exterior", f"{nm}", {"n": n, "which": nm, "matrix": M.tolist()})
             d0 = h.Point(X[0].copy()).distance(h.Point(X[1].copy()))
             d1 = (iso @ h.Point(X[0].copy())).distance(iso @ h.Point(X[1].copy()))
             # float64 conditioning: the form defect of a computed word is ~ eps |M|^2 (see preserves_form)
-            if not (abs(d0 - d1) <= 1e-6 * (1 + d0) + 1e-13 * np.max(np.abs(M)) ** 2):
+            if not (abs(d0 - d1) <= 1e-6 * (1 + d0) + 1e-13 * np.max(np.abs(M)) ** 2 + 10 * cn * max(1.0, np.max(np.abs(M)))):
                 rep.fail("preserves_distance", f"{nm}: {d0} vs {d1}", {"n": n, "which": nm, "matrix": M.tolist()})
             rep.case(key=(t, nm), nontrivial=(n >= 3 or nm.startswith("word")), sample={"n": n, "which": nm} if t == 0 else None)
 
